@@ -30,7 +30,9 @@ COQ = os.path.join(VERIF, "coq")
 BUILD = os.path.join(VERIF, "build")
 OCAML_BUILD = os.path.join(BUILD, "ocaml")
 REPLAYS = os.path.join(VERIF, "replays")
-EVIDENCE = os.path.join(VERIF, "evidence")
+# evidence/ describes runs against /repo itself; a run against another checkout (FLEXVERIF_REPO, used to evaluate seeded
+# regressions in scratch worktrees) writes its evidence under build/ so that it can never be committed by mistake
+EVIDENCE = os.path.join(VERIF, "evidence") if os.path.realpath(REPO) == "/repo" else os.path.join(BUILD, "evidence_other_checkout")
 GUARD = "FLEXSTACK_VERIF"
 
 ALLOWED_AXIOMS = {
